@@ -110,6 +110,8 @@ def run(chk, w):
             flushed = any(e[0] == "call" and e[1] == "bidib_flush" for e in p[idx + 1:])
             if flushed:
                 chk.ok("C19-ONCE", 1, {"report": rep, "mirror": enc, "flush_after": True})
+            elif _flushed_by_caller(P, disp, all_enc):
+                chk.ok("C19-ONCE", 1, {"report": rep, "mirror": enc, "flush_after": "in the dispatcher's caller, on every path with a buffered mirror (path-sensitive walk)"})
             else:
                 chk.violation("C19-ONCE", disp.name, rep + ":flush", "%s:%d" % (disp.relfile, mcalls[0][2]), "%s: the mirror message is not flushed before the case ends (it would wait for a manual or timed flush)" % rep)
         if with_m == 0:
@@ -308,4 +310,28 @@ def _from_addr_param(disp, a, D):
                     ok = True
                 elif tags and not all(t[0] in ("param",) for t in tags):
                     pass
+    return ok
+
+
+_FBC = {}
+
+
+def _flushed_by_caller(P, disp, encoders):
+    """the flush may have been moved out of the case: every caller of the dispatcher flushes before it returns whenever a mirror was buffered
+    (boolean result / flag correlation followed exactly)"""
+    if "r" in _FBC:
+        return _FBC["r"]
+    from .. import pending
+    flushers = {"bidib_flush"}
+    for f in P.repo_functions():
+        if f.name != "bidib_flush" and any(c.callee == "bidib_flush" for c in f.calls()) and len(list(f.calls())) <= 4:
+            pass
+    pd = pending.Pending(P, lambda f, i: i.op == "call" and i.callee in encoders, lambda f, i: i.op == "call" and i.callee in flushers)
+    callers = {cf.name: cf for cf, ci in P.callers().get(disp.name, [])}
+    ok = bool(callers)
+    for cf in callers.values():
+        bad = pd.leaks_at(cf)
+        if bad is None or bad:
+            ok = False
+    _FBC["r"] = ok
     return ok
